@@ -731,3 +731,107 @@ func readerOutcomeNoNonce(ex *document.DocumentEx, err error) string {
 }
 
 var _ = bytes.Equal
+
+// gateLink pauses the read at a chosen exchange and hands the processor to other goroutines.
+type gateLink struct {
+	inner interface {
+		Transceive(int, int, int, int, []byte, int, []byte) []byte
+	}
+	n, at int
+	gate  func()
+}
+
+func (g *gateLink) Transceive(cla int, ins int, p1 int, p2 int, data []byte, le int, enc []byte) []byte {
+	g.n++
+	if g.n == g.at && g.gate != nil {
+		g.gate()
+	}
+	return g.inner.Transceive(cla, ins, p1, p2, data, le, enc)
+}
+
+// TestSettersDuringRead: a schedule the harness owns.  One ReadDocument is in flight; at a drawn
+// exchange the link parks it and releases a second goroutine that calls a drawn sequence of 1-3
+// configuration setters one after another (it gets 40 ms, which is ample if nothing holds it back; if
+// the reader serialises setters behind the running read they simply wait).  "No call observes
+// another's configuration half-applied": the read's outcome must be the outcome of a read that saw
+// some PREFIX of the setter sequence applied from its start (prefix 0 = serialised behind the read),
+// computed sequentially on fresh readers.
+func TestSettersDuringRead(t *testing.T) {
+	f := getFixture(t)
+	p2, err := persona.Build(func() persona.Opts { o := f.p.Opts; o.DGs = []int{2, 11}; o.MaxImage = 300; return o }())
+	if err != nil {
+		evid.Infra(t, "persona: %v", err)
+	}
+	pool, _ := readcheck.Pool(p2)
+	pass, _ := password.NewPasswordMrzi(p2.DocNo, p2.DOB, p2.Expiry)
+	apply := func(rd *reader.Reader, s rop) {
+		switch s.Kind {
+		case 1:
+			rd.SkipImages()
+		case 2:
+			rd.WithAAChallenge(f.chals[s.Chal])
+		case 3:
+			rd.SkipPace()
+		}
+	}
+	// number of exchanges of a plain read (to draw the gate position)
+	probe := &gateLink{inner: p2.NewChip()}
+	reader.NewReader(nil, iso7816.NewNfcSession(probe), pool).ReadDocument(pass, nil, nil)
+	total := probe.n
+	evid.RapidCheck(t, 96, 3000, func(rt *rapid.T) {
+		m := rapid.IntRange(1, 3).Draw(rt, "setters")
+		var setters []rop
+		for i := 0; i < m; i++ {
+			setters = append(setters, rop{Kind: rapid.SampledFrom([]int{1, 3, 2, 1, 3}).Draw(rt, "kind"), Chal: rapid.IntRange(0, len(f.chals)-1).Draw(rt, "chal")})
+		}
+		at := rapid.IntRange(1, total).Draw(rt, "gate-at-exchange")
+		allowed := map[string]int{}
+		for j := 0; j <= m; j++ {
+			rd := reader.NewReader(nil, iso7816.NewNfcSession(p2.NewChip()), pool)
+			for _, s := range setters[:j] {
+				apply(rd, s)
+			}
+			ex, _, err := rd.ReadDocument(pass, nil, nil)
+			allowed[readerOutcome(ex, err)] = j
+		}
+		release, done := make(chan struct{}), make(chan struct{})
+		link := &gateLink{inner: p2.NewChip(), at: at}
+		rd := reader.NewReader(nil, iso7816.NewNfcSession(link), pool)
+		midRead := false
+		link.gate = func() {
+			close(release)
+			select {
+			case <-done:
+				midRead = true // the setters completed while the read was parked
+			case <-time.After(40 * time.Millisecond):
+			}
+		}
+		go func() {
+			<-release
+			for _, s := range setters {
+				apply(rd, s)
+			}
+			close(done)
+		}()
+		ex, _, err := rd.ReadDocument(pass, nil, nil)
+		out := readerOutcome(ex, err)
+		if link.n < at {
+			close(release) // the read ended before the gate: let the helper finish
+		}
+		<-done
+		rep := map[string]any{"setters": fmt.Sprint(setters), "gateAtExchange": at, "exchangesOfAPlainRead": total, "outcome": out, "settersCompletedMidRead": midRead}
+		evid.Case("setters-during-read", true, fmt.Sprint(setters, at), rep)
+		if midRead {
+			evid.Count("setters-completed-mid-read", 1)
+		}
+		if _, ok := allowed[out]; !ok {
+			var al []string
+			for k, j := range allowed {
+				al = append(al, fmt.Sprintf("prefix %d: %s", j, k))
+			}
+			sort.Strings(al)
+			rep["allowed"] = al
+			evid.Fail(rt, "setters-during-read", rep, "a read during which %v were called (read parked at exchange %d of %d) ended as %q, which is the outcome of no read that saw a prefix of those setters applied", setters, at, total, out)
+		}
+	})
+}
